@@ -193,6 +193,9 @@ pub fn judge_fault_free(c: &Case, api: Api, ex: &Exec) -> Vec<(String, String)> 
     if api == Api::Decor {
         return judge_decor(c, ex);
     }
+    if api == Api::Flags {
+        return v; // layout under width/fill/precision flags is not specified; only "returns Ok, no panic" (judged above)
+    }
     let rows = parse_rows_from_text(&ex.out);
     let labelled: Vec<(usize, usize)> = rows.iter().enumerate().filter_map(|(i, r)| r.label.map(|n| (i, n))).collect();
     if ls.is_empty() {
